@@ -6,6 +6,8 @@
    variant is in FullUnk, ALL unknown identifier values are listed. *)
 EXTENDS Qos, Json
 CONSTANT FullUnk
+AllUnkComp == (0..255) \ CompTypes        \* thorough generator: every unknown value at every identifier position
+AllUnkParam == (0..255) \ ParamIds
 AllUnknown(k) == (0..255) \ (IF k = "rules" THEN CompTypes ELSE ParamIds)
 Singles(k) == IF k = "rules" THEN {<<MkRule(1, 1, TRUE, <<MkFilter(1, 3, <<Comp(t, var)>>)>>, 10, FALSE, 5)>> : t \in CompTypes, var \in FullUnk}
               ELSE {<<MkDesc(9, 1, <<Param(i, var)>>)>> : i \in ParamIds, var \in FullUnk}
